@@ -1046,3 +1046,13 @@ writelines = Spec(
         *[z3.And(e[1][0].z == __import__('pyvc.builtins_model', fromlist=['join_fn']).join_fn(
             BytesS, z3.SeqSort(BytesS))(z3.Empty(BytesS), c.arg('list_of_data')),
             c.eq(e[1][1], c.argv('datatype'))) for e in c.events('write')]))])
+
+
+# ====================================================================== the stream API on top of data_received
+# "the receiving application sees exactly the byte sequence the sender wrote": applications that read through
+# SSHReader see it through SSHStreamSession.read / readuntil / readline.  Their delivery contracts (conservation of the
+# buffered sequence: what is returned is a prefix of what was delivered, the remainder stays queued in order) are the
+# C19 ones; the same contract objects are registered under C07 so that a change of the stream layer that loses,
+# duplicates or reorders data fails a C07 obligation as well.  Must stay the LAST statement (c19 imports c07 at its end).
+from . import c19 as _c19                                    # noqa: E402
+C19_READERS = _c19.register_reader_contracts_under(PROP)
